@@ -3,6 +3,7 @@ import LospanVerif.Driver.Aes
 import LospanVerif.Model.Cmac
 import LospanVerif.Driver.PhyIO
 import LospanVerif.Driver.GwIO
+import LospanVerif.Driver.PipeIO
 /-
   verifdrv: line-protocol driver. One request per line on stdin, one answer per line on stdout.
   Evaluates the executable Model and the executable Spec on the case; the Go harness compares
@@ -31,6 +32,7 @@ def handleAes : List String → String
 structure DrvState where
   gw : GwDrv := {}
   rt : Model.Router.St := Model.Router.init
+  pipe : PipeDrv := {}
 
 def handle (st : DrvState) (line : String) : DrvState × String :=
   match (line.trimAscii.toString.splitOn " ").filter (· ≠ "") with
@@ -45,10 +47,15 @@ def handle (st : DrvState) (line : String) : DrvState × String :=
   | "dev.rx" :: rest => (st, handleDevRx rest)
   | "dev.tx" :: rest => (st, handleDevTx rest)
   | "eui.new" :: rest => (st, handleEui rest)
+  | "join.tx" :: rest => (st, handleJoinTx rest)
+  | "join.rx" :: rest => (st, handleJoinRx rest)
   | op :: rest =>
     if op.startsWith "gw." then
       let (g, out) := handleGw st.gw (op :: rest)
       ({ st with gw := g }, out)
+    else if op.startsWith "pipe." then
+      let (p, out) := handlePipe st.pipe (op :: rest)
+      ({ st with pipe := p }, out)
     else if op.startsWith "txt." then (st, handleTxt (op :: rest))
     else if op.startsWith "rt." then
       let (r, out) := handleRt st.rt (op :: rest)
